@@ -13,6 +13,7 @@ import (
 	"sort"
 	"strings"
 	"sync"
+	"sync/atomic"
 	"time"
 
 	"github.com/opencontainers/go-digest"
@@ -102,13 +103,19 @@ type envA struct {
 	due     bool // the harness knows the layout was modified through this client since the last collection
 	blobs   []string
 	classes map[string]bool
+	cmu     sync.Mutex
+	tainted bool // a copy with referrers / digest-tags failed: goroutines it left behind may still be writing (known finding sigStray)
 	nt      bool
 	everR   map[string]bool // digests that index.json reached at some earlier point of the history
 	trace   []string
 	watchdog bool
 }
 
-func (e *envA) class(s string) { e.classes[s] = true }
+func (e *envA) class(s string) {
+	e.cmu.Lock()
+	e.classes[s] = true
+	e.cmu.Unlock()
+}
 
 func tagName(i int) string {
 	if i == 3 {
@@ -333,6 +340,7 @@ func (e *envA) doCopy(ctx context.Context, op Op) *evid.Violation {
 	addFault(e.m, op.Fault, "")
 	var mu sync.Mutex
 	var viol *evid.Violation
+	var finished atomic.Bool
 	k := 0
 	opts := copyOpts(op.Platforms, op.Referrers, op.DigestTags, op.Force, op.External, op.Child)
 	if op.CloseEvery > 0 {
@@ -340,6 +348,10 @@ func (e *envA) doCopy(ctx context.Context, op Op) *evid.Violation {
 		// tick is called at instants at which this ImageCopy provably is in progress: from inside one of its own source
 		// requests and from inside its progress callback (both are invoked synchronously by goroutines ImageCopy waits for).
 		tick := func(what string) {
+			if finished.Load() {
+				// ImageCopy has returned: an event from a goroutine it left behind (see sigStray); nothing is done here
+				return
+			}
 			mu.Lock()
 			defer mu.Unlock()
 			k++
@@ -382,6 +394,7 @@ func (e *envA) doCopy(ctx context.Context, op Op) *evid.Violation {
 	bf, bi := listDigestFiles(e.tgt), e.readIndexBytes()
 	cctx, cancel := context.WithTimeout(ctx, 60*time.Second)
 	cerr := e.rc.ImageCopy(cctx, src, tgt, opts...)
+	finished.Store(true)
 	if cctx.Err() == context.DeadlineExceeded {
 		e.watchdog = true
 	}
@@ -416,6 +429,15 @@ func (e *envA) doCopy(ctx context.Context, op Op) *evid.Violation {
 	}
 	mu.Lock()
 	defer mu.Unlock()
+	if cerr != nil && (op.Referrers || op.DigestTags) {
+		// known finding sigStray: this copy may have returned while goroutines it started still copy blobs. From here on
+		// the completeness clause cannot be judged in this history, and what its own events observed belongs to that finding.
+		e.tainted = true
+		e.class("A:failed-copy-with-referrers-may-have-left-writers")
+		if viol != nil {
+			viol = evid.V(sigStray, "ImageCopy of %s with referrers=%v digest-tags=%v failed (%s) and events of it observed a collection: %s", n.Digest, op.Referrers, op.DigestTags, short(cerr), viol.Msg)
+		}
+	}
 	return viol
 }
 
@@ -513,13 +535,22 @@ func (e *envA) closeAndJudge(ctx context.Context, step string) *evid.Violation {
 			return nil
 		}
 		e.class("A:close-error")
-		if v := e.report(evid.V("close-returned-error", "%s: Close on a valid layout returned %v (collection due=%v)", step, cerr, wasDue)); v != nil {
+		v := evid.V("close-returned-error", "%s: Close on a valid layout returned %v (collection due=%v)", step, cerr, wasDue)
+		if e.tainted && strings.Contains(cerr.Error(), "failed to delete") {
+			v = evid.V(sigStray, "%s: an earlier ImageCopy with referrers / digest-tags failed and returned while its goroutines were still writing; this Close ran a collection beside them and failed on a temp file that was renamed under it: %v", step, cerr)
+		}
+		if v := e.report(v); v != nil {
 			return v
 		}
 		return nil
 	}
 	if !wasDue {
 		e.class("A:close-not-due")
+		return nil
+	}
+	if e.tainted {
+		e.class("A:close-due-not-judged-possible-stray-writers")
+		e.due = false
 		return nil
 	}
 	// (2) a collection was due (modified through this client since the last collection, no copy in flight):
